@@ -380,7 +380,7 @@ def loop_range(oa, loop):
     blk = b.blocks[hdr]
     t = blk['term']
     if t['t'] != 'call' or not call_matches(t, 'Iterator>::next', 'Iterator::next', '::next'):
-        return None
+        return counting_loop(oa, loop)
     it = tr.origin(t['args'][0])
     # iterator local <- into_iter(range)
     from .lineage import through
@@ -390,3 +390,81 @@ def loop_range(oa, loop):
     if o['o'] == 'rvalue' and o['rv']['r'] == 'aggr' and str(o['rv'].get('adt', '')).endswith('ops::Range'):
         return ('exclusive', o['rv']['ops'][0], o['rv']['ops'][1], hdr)
     return None
+
+
+def counting_loop(oa, loop):
+    """A hand-written counting loop read as the range loop it is:
+
+        i = c;  loop { if i == N { break }  i += 1;  .. }        (also `i >= N`, or `while i < N { i += 1; .. }`)
+
+    runs exactly like `for _ in c..N`: the test sits in the loop header, i has one definition outside the loop (the constant c),
+    one inside (i + 1, in a block that dominates every latch), and N does not change inside the loop.  Returns the same tuple as
+    loop_range, or None."""
+    b, tr, cfg = oa.body, oa.tr, oa.cfg
+    from .mirutil import Defs
+    defs = getattr(oa, 'defs', None) or Defs(b)
+    hdr = loop['header']
+    body = loop['body']
+    # the header (or the straight-line blocks it falls through) ends in a switch on a comparison of i with N
+    cur = hdr
+    for _ in range(4):
+        t = b.blocks[cur]['term']
+        if t['t'] == 'goto' and t['target'] in body:
+            cur = t['target']
+            continue
+        break
+    t = b.blocks[cur]['term']
+    if t['t'] != 'switch' or t['discr'].get('ty') != 'bool':
+        return None
+    o = tr.origin(t['discr'])
+    if not (o['o'] == 'rvalue' and o['rv']['r'] == 'binop' and o['rv']['op'] in ('Eq', 'Ge', 'Lt')):
+        return None
+    false_t = [tg for v, tg in t['arms'] if v == '0']
+    if not false_t:
+        return None
+    true_t, false_t = t['otherwise'], false_t[0]
+    exit_on_true = o['rv']['op'] in ('Eq', 'Ge')
+    leave, stay = (true_t, false_t) if exit_on_true else (false_t, true_t)
+    if leave in body or stay not in body:
+        return None
+    io, no_ = tr.origin(o['rv']['a']), o['rv']['b']
+    i = io.get('l') if io['o'] == 'local' and not io.get('p') else None
+    if i is None:
+        return None
+    ds = [d for d in defs.of(i) if d[0] in cfg.reach]
+    outside = [d for d in ds if d[0] not in body]
+    inside = [d for d in ds if d[0] in body]
+    if len(outside) != 1 or len(inside) != 1:
+        return None
+    d0 = outside[0]
+    if not (d0[2] == 'assign' and d0[3]['r'] == 'use' and d0[3]['a'].get('k') == 'const' and 'int' in d0[3]['a']):
+        return None
+    d1 = inside[0]
+    inc = False
+    if d1[2] == 'assign' and d1[3]['r'] == 'use' and 'l' in d1[3]['a']:
+        # i = move (tmp.0) with tmp = AddWithOverflow(copy i, const 1)
+        so = tr.origin(d1[3]['a'])
+        rv = so.get('rv') if so['o'] == 'rvalue' else None
+        if rv and rv['r'] == 'binop' and rv['op'] in ('Add', 'AddWithOverflow', 'AddUnchecked'):
+            x, y = rv['a'], rv['b']
+            for p_, q_ in ((x, y), (y, x)):
+                if q_.get('k') == 'const' and str(q_.get('int')) == '1' and 'l' in p_ and tr.origin(p_).get('l') == i:
+                    inc = True
+    elif d1[2] == 'assign' and d1[3]['r'] == 'binop' and d1[3]['op'] == 'Add':
+        x, y = d1[3]['a'], d1[3]['b']
+        for p_, q_ in ((x, y), (y, x)):
+            if q_.get('k') == 'const' and str(q_.get('int')) == '1' and p_.get('l') == i and not p_.get('p'):
+                inc = True
+    if not inc or not all(cfg.dominates(d1[0], lt) for lt in loop['latches']):
+        return None
+    # N is loop invariant
+    if 'l' in no_:
+        nn = tr.origin(no_)
+        if nn['o'] == 'local':
+            if any(d[0] in body for d in defs.of(nn['l'])):
+                return None
+        elif nn['o'] not in ('arg', 'const', 'rvalue', 'call'):
+            return None
+        if nn['o'] in ('rvalue', 'call') and nn.get('bb') in body:
+            return None
+    return ('exclusive', d0[3]['a'], no_, hdr)
